@@ -279,7 +279,7 @@ def tt_intersect_rows(MatrixA: np.ndarray, MatrixB: np.ndarray) -> np.ndarray:
     valid, location = tt_ismember_rows(
         MatrixBUnique[np.argsort(idxB)], MatrixAUnique[np.argsort(idxA)]
     )
-    return location[valid]
+    return np.sort(idxA)[location[valid]]
 
 
 def tt_irenumber(
